@@ -1,5 +1,5 @@
 //@unit sm4_modes
-//@serves C07
+//@serves C07 C20
 //@source gm-sm4/src/lib.rs
 //@rewrite mutfull
 //@assume <[T]>::clone_from_slice copies, u8::overflowing_add is addition mod 256 with carry (assume_specification)
